@@ -83,7 +83,8 @@ def build_files(case):
                 extra += ["", f"def collect_shared_{i}(items):", "    result = []", "    for it in items:", "        result.append(it)", "    return result"]
             else:
                 extra += ["", f"def render_shared_{i}(items):", '    result = ""', "    for it in items:", "        result += str(it)", "    return result"]
-        files[f"src/f{i:02d}{seeds.EXT[lang]}"] = text + ("\n".join(extra) + "\n" if extra else "")
+        sub = "src/sub/" if i % 4 == 3 else "src/"  # every fourth file lives one directory deeper (recursive vs --no-recursive)
+        files[f"{sub}f{i:02d}{seeds.EXT[lang]}"] = text + ("\n".join(extra) + "\n" if extra else "")
     return files
 
 
@@ -231,6 +232,20 @@ def check(case) -> Case:
         has_per = any(not v["rule_id"].startswith(CROSS) for v in seq)
         parallel_taken = case["n"] >= 2 * case["w"]
         labels += ["parallel-path" if parallel_taken else "sequential-fallback", "cross" if has_cross else "no-cross"]
+        dir_mode = case.get("dir_mode")  # None | "recursive" | "flat": directory entry points instead of a file list
+        if dir_mode:
+            rec = dir_mode == "recursive"
+            seq_orch = runner.fresh_orchestrator(p.root)
+            seq = [runner.vdict(v) for v in seq_orch.lint_directory(Path(p.path("src")), recursive=rec)]
+            has_cross = any(v["rule_id"].startswith(CROSS) for v in seq)
+            has_per = any(not v["rule_id"].startswith(CROSS) for v in seq)
+            labels.append(f"dir-{dir_mode}")
+
+        def parallel_call(orch):
+            if dir_mode:
+                return orch.lint_directory_parallel(Path(p.path("src")), recursive=(dir_mode == "recursive"), max_workers=case["w"])
+            return orch.lint_files_parallel(list(paths), max_workers=case["w"])
+
         if kind == "sched":
             sched = _Sched(case["partition"], case["order"])
             old_pool, old_ac = core.ProcessPoolExecutor, core.as_completed
@@ -238,7 +253,7 @@ def check(case) -> Case:
             try:
                 orch = runner.fresh_orchestrator(p.root)
                 with runner.capture_swallowed() as sw:
-                    par = orch.lint_files_parallel(list(paths), max_workers=case["w"])
+                    par = parallel_call(orch)
             finally:
                 core.ProcessPoolExecutor, core.as_completed = old_pool, old_ac
             par = [runner.vdict(v) for v in par]
@@ -249,7 +264,7 @@ def check(case) -> Case:
         elif kind == "pool":
             orch = runner.fresh_orchestrator(p.root)
             with runner.capture_swallowed() as sw:
-                par = orch.lint_files_parallel(list(paths), max_workers=case["w"])
+                par = parallel_call(orch)
             par = [runner.vdict(v) for v in par]
             if sw:
                 failures.append(Failure("pool|swallowed-failure", {"swallowed": sw[:3]}))
@@ -257,8 +272,11 @@ def check(case) -> Case:
         elif kind == "cli":
             cmd = case["cmd"]
             target = ["src"] if case.get("dir_target") else [os.path.relpath(str(q), p.root) for q in paths]
-            r1 = runner.run_cli_sub([cmd, "--format", "json", *target], cwd=p.root)
-            r2 = runner.run_cli_sub([cmd, "--format", "json", "--parallel", *target], cwd=p.root)
+            opts = ["--no-recursive"] if case.get("dir_target") and case.get("flat") else []
+            if opts:
+                labels.append("--no-recursive")
+            r1 = runner.run_cli_sub([cmd, "--format", "json", *opts, *target], cwd=p.root)
+            r2 = runner.run_cli_sub([cmd, "--format", "json", "--parallel", *opts, *target], cwd=p.root)
             labels.append(f"cmd={cmd}")
             if r1.exit not in (0, 1) or r2.exit not in (0, 1):
                 failures.append(Failure(f"cli|{cmd}|bad-exit", {"seq_exit": r1.exit, "par_exit": r2.exit, "stderr": r2.stderr[-400:]}))
@@ -304,7 +322,8 @@ def sched_cases(draw, kind="sched", max_w=16):
     order = draw(st.permutations(list(range(n))))
     partition = draw(st.lists(st.integers(0, w - 1), min_size=n, max_size=n))
     return {"kind": kind, "w": w, "n": n, "langs": langs, "per_file": draw(st.integers(1, 2)), "fam_off": draw(st.integers(0, 10)),
-            "dup": dup, "sty": sty, "order": list(order), "partition": partition, "shuffle_args": draw(st.booleans())}
+            "dup": dup, "sty": sty, "order": list(order), "partition": partition, "shuffle_args": draw(st.booleans()),
+            "dir_mode": draw(st.sampled_from([None, None, "recursive", "flat"]))}
 
 
 CLI_CMDS = ["nesting", "srp", "magic-numbers", "dry", "stringly-typed", "improper-logging", "print-statements", "method-property",
@@ -317,7 +336,7 @@ def cli_cells(seed):
     for i, cmd in enumerate(CLI_CMDS):
         for n in (15, 16, 17, 24, 65):
             cells.append({"kind": "cli", "cmd": cmd, "w": 8, "n": n, "langs": ["py", "ts", "rs", "js"], "per_file": 2, "fam_off": (i + seed) % 7,
-                          "dup": 3, "sty": 3, "order": list(range(n)), "dir_target": (i + n + seed) % 2 == 0})
+                          "dup": 3, "sty": 3, "order": list(range(n)), "dir_target": (i + n + seed) % 2 == 0, "flat": (i + n + seed) % 4 == 0})
     return cells
 
 
